@@ -191,6 +191,8 @@ func decErr(err error) string {
 		return "sizeExceeded"
 	case errors.Is(err, errWireExhausted), has("c13: wire exhausted"):
 		return "eof"
+	case has("invalid EOF marker"), has("invalid file size data"):
+		return "malformed" // (GetFile: "EOF" here is the name of the end-of-file frame, not a read error)
 	case has("failed to read frame header"), has("failed to read message data"), has("read CEDAR frame"):
 		return "eof"
 	case errors.Is(err, io.EOF):
@@ -1238,6 +1240,7 @@ func (w *wworld) op(op, entry string, f func() (string, error)) {
 	if haveHdr {
 		flag, announced = w.conn.In[0], binary.BigEndian.Uint32(w.conn.In[1:5])
 	}
+	firstBad := firstBadFrame(w.conn.In)
 	runtime.ReadMemStats(&m0)
 	func() {
 		defer func() { pv = recover() }()
@@ -1273,6 +1276,35 @@ func (w *wworld) op(op, entry string, f func() (string, error)) {
 	if a, lim := m1.TotalAlloc-m0.TotalAlloc, uint64(16*w.wire+4<<20); a > lim {
 		viol("C13:alloc:"+entry, fmt.Sprintf("%s allocated %d bytes for %d wire bytes", entry, a, w.wire), fmt.Sprintf("≤ %d", lim), fmt.Sprint(a))
 	}
+	// a reader that takes several frames (GetFile, ReceiveCompleteMessage): the first frame of the
+	// unread wire that cannot be delivered decides how it must end. When that frame is an oversize
+	// header, every frame before it is complete and legal, so "ran out of data" can only mean the
+	// reader accepted the oversize header and waited for its payload.
+	if pv == nil && err != nil && (errors.Is(err, io.EOF) || errors.Is(err, io.ErrUnexpectedEOF)) && firstBad == "oversize" {
+		viol("C13:frame-limit:"+entry, fmt.Sprintf("%s ran out of data although the first undeliverable frame of the wire is a header announcing more than %d bytes: the header was accepted and a payload buffer sized from it", entry, stream.MaxMessageSize), "err tooLarge", "err eof")
+	}
+}
+
+// firstBadFrame walks the frames of a wire (reference parser, independent of the library) and
+// names what stops it: "" (the wire ends on a frame boundary), "oversize", "flag", "truncated".
+func firstBadFrame(b []byte) string {
+	for len(b) > 0 {
+		if len(b) < 5 {
+			return "truncated"
+		}
+		n := binary.BigEndian.Uint32(b[1:5])
+		if n > stream.MaxMessageSize {
+			return "oversize"
+		}
+		if b[0] > 10 {
+			return "flag"
+		}
+		if uint64(len(b)-5) < uint64(n) {
+			return "truncated"
+		}
+		b = b[5+int(n):]
+	}
+	return ""
 }
 
 func (w *wworld) recvc() {
@@ -1306,6 +1338,229 @@ func (w *wworld) readmsg() {
 		_ = w.s.EndMessageRead()
 		return showVal(all), nil
 	})
+}
+
+// the frame reader without end flag and its two callers
+func (w *wworld) recvn() {
+	w.op("recvn", "stream.ReceiveFrame", func() (string, error) {
+		v, err := w.s.ReceiveFrame(bg)
+		return showVal(v), err
+	})
+}
+
+func (w *wworld) getsecret() {
+	w.op("getsecret", "stream.GetSecret", func() (string, error) {
+		v, err := w.s.GetSecret(bg)
+		return showVal([]byte(v)), err
+	})
+}
+
+func (w *wworld) getfile() {
+	w.op("getfile", "stream.GetFile", func() (string, error) {
+		dir, err := os.MkdirTemp(workRoot(), "c13f-")
+		if err != nil {
+			return "", err
+		}
+		defer os.RemoveAll(dir)
+		p := filepath.Join(dir, "received")
+		n, err := w.s.GetFile(bg, p)
+		if st, e := os.Stat(p); e == nil && st.Size() > int64(w.wire) {
+			c13Violate(w.c, Violation{Property: "C13", Key: "C13:file-size:stream.GetFile", What: fmt.Sprintf("GetFile wrote %d bytes to the file from %d wire bytes", st.Size(), w.wire),
+				Ops: append([]string{"# " + w.label}, w.ops...), Expected: fmt.Sprintf("≤ %d", w.wire), Observed: fmt.Sprint(st.Size())})
+		}
+		return fmt.Sprintf(" %d", n), err
+	})
+}
+
+func (w *wworld) api(name string) {
+	switch name {
+	case "recvc":
+		w.recvc()
+	case "readmsg":
+		w.readmsg()
+	case "recvf":
+		w.recvf()
+	case "recvn":
+		w.recvn()
+	case "getsecret":
+		w.getsecret()
+	case "getfile":
+		w.getfile()
+	}
+}
+
+var wireEntry = map[string]string{"recvc": "stream.ReceiveCompleteMessage", "readmsg": "stream.StartMessageRead", "recvf": "stream.ReceiveFrameWithEnd",
+	"recvn": "stream.ReceiveFrame", "getsecret": "stream.GetSecret", "getfile": "stream.GetFile"}
+
+// decodeWireNoEnd: stream.ReceiveFrame — the frame reader behind GetSecret and GetFile — under
+// hostile headers. Headers that could size a buffer of more than 64 MiB go to the child process.
+func decodeWireNoEnd(c *Ctx, cases *[]Case, childJobs *[]childJob) {
+	add := func(w *wworld) {
+		c.Distinct(strings.Join(w.ops, "\n"), true)
+		*cases = append(*cases, Case{Label: w.label, Ops: w.ops, Real: w.real})
+	}
+	run := func(label string, wire []byte, apis ...string) {
+		// the largest length any header position of this wire could announce decides where it runs
+		huge := false
+		for b := wire; len(b) >= 5; {
+			n := binary.BigEndian.Uint32(b[1:5])
+			if n > 1<<26 {
+				huge = true
+			}
+			if uint64(len(b)-5) < uint64(n) {
+				break
+			}
+			b = b[5+int(n):]
+		}
+		if huge && len(apis) == 1 {
+			exp := ""
+			if len(wire) >= 5 && binary.BigEndian.Uint32(wire[1:5]) > stream.MaxMessageSize {
+				exp = "err tooLarge"
+			}
+			*childJobs = append(*childJobs, childJob{Label: label, Kind: "wire", Api: apis[0], Wire: hex.EncodeToString(wire), InBytes: len(wire), Expect: exp})
+			c.Count("wire-noend:child:" + apis[0])
+			return
+		}
+		if huge {
+			return
+		}
+		w := newWWorld(c, label, wire, false)
+		for _, a := range apis {
+			w.api(a)
+		}
+		c.Count("wire-noend:" + apis[0])
+		add(w)
+	}
+	flags := []byte{0, 1, 10, 11, 255}
+	lens := []uint32{0, 1, 7, 8, 9, 1<<20 - 1, 1 << 20, 1<<20 + 1, 1 << 24, 1<<26 + 1, 0x7fffffff, 0x80000000, 0xffffffff}
+	// one header, a short body
+	for _, n := range lens {
+		for _, fl := range flags {
+			if n > 1<<20+1 && fl != 1 && !(fl == 255 && n == 0xffffffff) {
+				continue
+			}
+			for _, bl := range []int{0, 4, 8, 12} {
+				if n > 1<<26 && bl != 0 && bl != 8 {
+					continue // (each of these is a process of its own when the limit is gone)
+				}
+				body := bytes.Repeat([]byte{0x01}, bl)
+				if bl >= 4 {
+					body[bl-1] = 0
+				}
+				wire := wireFrame(fl, n, body)
+				for _, apiName := range []string{"recvn", "getsecret", "getfile"} {
+					run(fmt.Sprintf("noend-header n=%d flag=%d body=%d %s", n, fl, bl, apiName), wire, apiName)
+				}
+			}
+		}
+	}
+	// files: size frame, chunks, end marker — valid, and with one hostile element
+	marker := func(v uint32) []byte { b := make([]byte, 4); binary.BigEndian.PutUint32(b, v); return wireFrame(1, 4, b) }
+	sizes := []int64{0, 1, 3, 10, -1, -1 << 63, 1 << 40, 1<<63 - 1}
+	for _, size := range sizes {
+		for _, shape := range []string{"exact", "short", "over", "empty-chunks", "no-marker", "bad-marker", "marker-len", "size-len", "hostile-chunk", "hostile-chunk-huge", "hostile-marker", "hostile-marker-huge", "flag-chunk"} {
+			var wire []byte
+			sz := be8(size)
+			if shape == "size-len" {
+				sz = sz[:7]
+			}
+			wire = append(wire, wireFrame(1, uint32(len(sz)), sz)...)
+			want := size
+			if want > 10 || want < 0 {
+				want = 6
+			}
+			data := bytes.Repeat([]byte{0x62}, int(want))
+			chunk := func(b []byte) { wire = append(wire, wireFrame(1, uint32(len(b)), b)...) }
+			switch shape {
+			case "short":
+				if len(data) > 0 {
+					chunk(data[:len(data)-1])
+				}
+			case "over":
+				chunk(append(append([]byte{}, data...), 0x63, 0x63))
+			case "empty-chunks":
+				for i := 0; i < 50; i++ {
+					chunk(nil)
+				}
+				chunk(data)
+			case "hostile-chunk":
+				chunk(data[:len(data)/2])
+				wire = append(wire, wireFrame(1, 1<<20+1, []byte("xy"))...)
+			case "hostile-chunk-huge":
+				chunk(data[:len(data)/2])
+				wire = append(wire, wireFrame(1, 0xfffffff0, []byte("xy"))...)
+			case "flag-chunk":
+				chunk(data[:len(data)/2])
+				wire = append(wire, wireFrame(11, 2, []byte("xy"))...)
+			default:
+				for len(data) > 0 {
+					k := 1 + c.Rng.Intn(len(data))
+					chunk(data[:k])
+					data = data[k:]
+				}
+			}
+			switch shape {
+			case "no-marker":
+			case "bad-marker":
+				wire = append(wire, marker(667)...)
+			case "marker-len":
+				wire = append(wire, wireFrame(1, 5, []byte{0, 0, 2, 154, 0})...)
+			case "hostile-marker":
+				wire = append(wire, wireFrame(1, 1<<20+1, []byte{0, 0, 2, 154})...)
+			case "hostile-marker-huge":
+				wire = append(wire, wireFrame(1, 0x80000004, []byte{0, 0, 2, 154})...)
+			default:
+				wire = append(wire, marker(666)...)
+			}
+			wire = append(wire, wireFrame(1, 3, []byte("nx\x00"))...) // what follows the file stays unread
+			run(fmt.Sprintf("noend-file size=%d %s", size, shape), wire, "getfile")
+			c.Count("wire-noend:file:" + shape)
+		}
+	}
+	// random frame sequences read frame by frame / as secrets / as a file
+	for i := 0; i < c.Pick(120, 8000); i++ {
+		var wire []byte
+		nf := 1 + c.Rng.Intn(5)
+		for j := 0; j < nf; j++ {
+			body := randAscii(c, c.Rng.Intn(12))
+			if j == 0 && c.Rng.Intn(2) == 0 {
+				body = be8(int64(c.Rng.Intn(20) - 2))
+			}
+			if j == nf-1 && c.Rng.Intn(2) == 0 {
+				body = []byte{0, 0, 2, byte(153 + c.Rng.Intn(3))}
+			}
+			fl := []byte{0, 1, 1, 1, 2, 10, 11}[c.Rng.Intn(7)]
+			n := uint32(len(body))
+			switch c.Rng.Intn(12) {
+			case 0:
+				n = []uint32{0, n + 1, n + 100, 1 << 20, 1<<20 + 1, 1 << 25}[c.Rng.Intn(6)]
+			case 1:
+				if len(body) > 0 {
+					body = body[:len(body)-1]
+				}
+			}
+			wire = append(wire, wireFrame(fl, n, body)...)
+		}
+		var apis []string
+		switch c.Rng.Intn(3) {
+		case 0:
+			apis = []string{"getfile", "recvn"}
+		case 1:
+			for k := 0; k <= nf; k++ {
+				apis = append(apis, []string{"recvn", "getsecret", "recvf"}[c.Rng.Intn(3)])
+			}
+		default:
+			apis = []string{"getsecret", "getfile"}
+		}
+		run(fmt.Sprintf("noend#%d", i), wire, apis...)
+	}
+	// an empty cleartext frame on a keyed stream; GetSecret turns crypto on for its frame
+	for _, apiName := range []string{"recvn", "getsecret", "getfile"} {
+		w := newWWorld(c, "noend-keyed-empty "+apiName, wireFrame(1, 0, nil), true)
+		w.api(apiName)
+		c.Count("wire-noend:keyed-empty")
+		add(w)
+	}
 }
 
 func wireFrame(flag byte, n uint32, body []byte) []byte {
@@ -1674,12 +1929,17 @@ type childJob struct {
 	Frames  []string `json:"frames"` // hex payload + "/0|1"
 	InBytes int      `json:"in_bytes"`
 	K       int      `json:"k"`
+	Api     string   `json:"api,omitempty"`    // kind "wire": recvn | getsecret | getfile | recvc | readmsg
+	Wire    string   `json:"wire,omitempty"`   // kind "wire": raw wire bytes (hex)
+	Expect  string   `json:"expect,omitempty"` // kind "wire": reply prefix the property demands ("" = none)
 }
 
 type childResult struct {
 	Reply string `json:"reply"`
 	Alloc uint64 `json:"alloc"`
 	Stack uint64 `json:"stack"` // growth of the memory in use by goroutine stacks
+	// kind "wire": what the in-process oracles of wworld.op recorded inside the child
+	Viol []Violation `json:"viol,omitempty"`
 }
 
 func hexFrames(fs []dframe) []string {
@@ -1743,6 +2003,11 @@ func runDecodeChild(c *Ctx) error {
 					w.opXKey()
 				}
 				rep = w.real[len(w.real)-1]
+			case "wire":
+				wire, _ := hex.DecodeString(j.Wire)
+				w := newWWorld(c, j.Label, wire, false)
+				w.api(j.Api)
+				rep = w.real[len(w.real)-1]
 			case "stack":
 				var wire []byte
 				for k := 0; k < j.K; k++ {
@@ -1765,7 +2030,13 @@ func runDecodeChild(c *Ctx) error {
 		if m1.StackInuse > m0.StackInuse {
 			stk = m1.StackInuse - m0.StackInuse
 		}
-		b, _ := json.Marshal(childResult{Reply: rep, Alloc: m1.TotalAlloc - m0.TotalAlloc, Stack: stk})
+		cr := childResult{Reply: rep, Alloc: m1.TotalAlloc - m0.TotalAlloc, Stack: stk}
+		if j.Kind == "wire" {
+			cr.Viol = append(cr.Viol, c.Res.Violations...)
+			c.Res.Violations = nil
+			c13Seen = map[string]int{}
+		}
+		b, _ := json.Marshal(cr)
 		fmt.Fprintf(out, "RESULT %d %s\n", i, b)
 		out.Flush()
 	}
@@ -1848,6 +2119,11 @@ func runChildJobs(c *Ctx, jobs []childJob, cases *[]Case) error {
 	for i, j := range jobs {
 		ops := []string{"# " + j.Label + " (child process: RLIMIT_AS 6 GiB, GOMEMLIMIT 4 GiB, max stack 48 MiB)", fmt.Sprintf("new %s 0", b01(j.Enc)), "frames " + strings.Join(payloadFrames(j.Frames), " "), j.Kind}
 		entry := map[string]string{"tls": "security.receiveMessage", "xkey": "security.exchangeKey", "stack": "stream.readNextFrame"}[j.Kind]
+		if j.Kind == "wire" {
+			wire, _ := hex.DecodeString(j.Wire)
+			ops = []string{ops[0], "wire 0 " + orc.Payload(wire), j.Api}
+			entry = wireEntry[j.Api]
+		}
 		c.Res.Evaluations++
 		switch {
 		case fatal[i] != "":
@@ -1871,7 +2147,20 @@ func runChildJobs(c *Ctx, jobs []childJob, cases *[]Case) error {
 				c13Violate(c, Violation{Property: "C13", Key: "C13:stack:" + entry, What: fmt.Sprintf("%s: goroutine stack grew by %d bytes while reading %d empty partial frames (%d wire bytes): one stack frame per partial frame", entry, r.Stack, j.K, j.InBytes),
 					Ops: ops, Expected: "constant stack (≤ 4 MiB growth)", Observed: fmt.Sprint(r.Stack)})
 			}
-			if j.Kind != "stack" {
+			if j.Kind == "wire" {
+				for _, v := range r.Viol {
+					v.Ops = append([]string{ops[0]}, v.Ops...)
+					c13Violate(c, v)
+				}
+				if j.Expect != "" && !strings.HasPrefix(r.Reply, j.Expect) {
+					c13Violate(c, Violation{Property: "C13", Key: "C13:frame-limit:" + entry, What: fmt.Sprintf("%s did not refuse a frame header announcing more than %d bytes (%s)", entry, stream.MaxMessageSize, j.Label), Ops: ops, Expected: j.Expect, Observed: clip(r.Reply, 200)})
+				}
+				rep := r.Reply
+				if strings.HasPrefix(rep, "err panic") {
+					rep = "err panic"
+				}
+				*cases = append(*cases, Case{Label: j.Label, Ops: ops[1:], Real: []string{"ok", rep}})
+			} else if j.Kind != "stack" {
 				rep := r.Reply
 				if strings.HasPrefix(rep, "err panic") {
 					rep = "err panic" + rep[strings.LastIndex(rep, " f="):]
@@ -1932,6 +2221,7 @@ func runDecode(c *Ctx) error {
 	decodeHandshake(c, &cases, &jobs)
 	decodeGarbage(c, &cases)
 	decodeWire(c, &cases)
+	decodeWireNoEnd(c, &cases, &jobs)
 	decodeLeaves(c, &cases)
 	// stack depth of the multi-frame reader
 	jobs = append(jobs, childJob{Label: "stack: 400000 empty partial frames then the end (2 MB on the wire)", Kind: "stack", K: 400000, InBytes: 5 * 400000})
